@@ -29,7 +29,7 @@ ASSUMPTIONS = [
     "result content judged = frequency, curves, masks, peaks, search range (numeric content); result.meta aliasing with the inputs is judged only for channels proven by poking",
 ]
 NOT_REACHED = ["recordings with more than 12000 samples in this check (C01 covers long windows)"]
-BUDGET = {"quick": dict(cases=400, seconds=60, shards=4),
+BUDGET = {"quick": dict(cases=1200, seconds=60, shards=4),
           "thorough": dict(cases=100000, seconds=600, shards=16)}
 REQUIRED = ["mon:recordings-unchanged", "mon:repeatable", "mon:result-independent-of-later-mutation",
             "mon:second-method-unaffected"]
